@@ -29,6 +29,8 @@ func TestOwnersRecheckTokensRapid(t *testing.T) {
 		observe := time.Duration(rapid.SampledFrom([]int{1, 2, 4}).Draw(rt, "observeS")) * time.Second
 		rounds := rapid.IntRange(1, 3).Draw(rt, "stealRounds")
 		seed := uint32(rapid.IntRange(0, 31).Draw(rt, "genSeed"))
+		// heartbeats during the observation (period shorter than the observe period) or not
+		hb := time.Duration(rapid.SampledFrom([]int{500, 1000, 5000}).Draw(rt, "heartbeatMs")) * time.Millisecond
 		steal := make([][]int, rounds)
 		for r := range steal {
 			steal[r] = rapid.SliceOfNDistinct(rapid.IntRange(0, n-1), 1, n, func(i int) int { return i }).Draw(rt, "stealIdx")
@@ -44,7 +46,7 @@ func TestOwnersRecheckTokensRapid(t *testing.T) {
 				d.AddIngester("aaa", "aaa:1", "z", []uint32{40, 41}, ring.ACTIVE, time.Now(), false, time.Time{}, nil)
 				return d, true, nil
 			})
-			cfg := lcx.Cfg{ID: "zzz", Basic: basic, NumTokens: n, JoinAfter: 0, Observe: observe, HBPeriod: 5 * time.Second, GenSeed: seed, GenSpace: 32, RegState: ring.ACTIVE}
+			cfg := lcx.Cfg{ID: "zzz", Basic: basic, NumTokens: n, JoinAfter: 0, Observe: observe, HBPeriod: hb, GenSeed: seed, GenSpace: 32, RegState: ring.ACTIVE}
 			l, err := lcx.New(cfg, store)
 			if err != nil {
 				failure = err.Error()
@@ -121,11 +123,11 @@ func TestOwnersRecheckTokensRapid(t *testing.T) {
 		vx.Eval(1)
 		vx.Class("recheck_runs", 1)
 		if stolenTotal > 0 {
-			vx.NonTrivial(vx.FP("recheck", basic, n, observe, fmt.Sprint(steal), seed))
+			vx.NonTrivial(vx.FP("recheck", basic, n, observe, hb, fmt.Sprint(steal), seed))
 			vx.Class("tokens_taken_during_observe", stolenTotal)
 		}
 		if failure != "" {
-			rt.Fatalf("%s (basic=%v tokens=%d observe=%v steal=%v)", failure, basic, n, observe, steal)
+			rt.Fatalf("%s (basic=%v tokens=%d observe=%v heartbeat=%v steal=%v)", failure, basic, n, observe, hb, steal)
 		}
 	})
 }
